@@ -140,6 +140,10 @@ pub struct Inv {
     /// stdout is not judged) and must change nothing else: tree, exit status, what is written.
     #[serde(default)]
     pub debug: u8,
+    /// file lists only: every option comes first, then `--`, then the paths - and paths whose name
+    /// starts with '-' are written without the protecting "./"
+    #[serde(default)]
+    pub dashdash: bool,
 }
 
 impl Inv {
@@ -224,6 +228,15 @@ impl Inv {
             }
         }
         let mut v = pre;
+        if self.dashdash && matches!(self.shape, Shape::Files { .. }) {
+            v.extend(post);
+            v.push("--".into());
+            v.extend(mid.into_iter().map(|p| match p.strip_prefix("./") {
+                Some(rest) if rest.starts_with('-') => rest.to_string(),
+                _ => p,
+            }));
+            return v;
+        }
         v.extend(mid);
         v.extend(post);
         v
